@@ -74,6 +74,9 @@ struct Cfg {
     /// the observer starts one minute before any of its peers (its bootstrap address is dead
     /// at first)
     observer_first: bool,
+    /// the observer is built in the default (adaptive) mode instead of server mode: on public
+    /// addresses it confirms its address and turns into a server at its first refresh
+    adaptive: bool,
 }
 
 fn peer_ip(i: usize, public: bool) -> [u8; 4] {
@@ -116,7 +119,8 @@ fn scenario(cfg: &Cfg, track: bool) -> Out {
     let mut peers: Vec<PeerState> = vec![];
     let mut boots: Vec<SocketAddrV4> = vec![];
     let n_peers = 4;
-    let obs_cfg = NodeCfg::new(if cfg.public { [50, 40, 50, 60] } else { [10, 1, 0, 100] }, 6881).server().bootstrap(&[SocketAddrV4::new(peer_ip(0, cfg.public).into(), 6881)]).id([0x0B; 20]);
+    let obs_cfg = NodeCfg::new(if cfg.public { [50, 40, 50, 60] } else { [10, 1, 0, 100] }, 6881).bootstrap(&[SocketAddrV4::new(peer_ip(0, cfg.public).into(), 6881)]).id([0x0B; 20]);
+    let obs_cfg = if cfg.adaptive { obs_cfg } else { obs_cfg.server() };
     let mut early_obs: Option<usize> = None;
     if cfg.observer_first {
         early_obs = Some(w.add_node(obs_cfg.clone()));
@@ -362,7 +366,7 @@ fn record(c: &Cfg, o: &Out, out: &mut Partial) {
         // The restarted first node that is never relearned (public plan) is one history whatever
         // else happens to the other peers in the same run: the finding is keyed by that history.
         let first_node_restart = c.public && about == Some(0) && c.devs.iter().any(|d| matches!(d.act, Act::Restart(0))) && (k == "responsive-peer-missing" || k == "restarted-peer-not-relearned");
-        let key = if first_node_restart { format!("{k}/public/restart-first-node") } else { format!("{k}/{}/{}{}{}", if c.public { "public" } else { "private" }, if kinds.is_empty() { "steady".to_string() } else { kinds.join("+") }, if c.late.is_some() { "+late-joiner" } else { "" }, if c.observer_first { "+observer-starts-first" } else { "" }) };
+        let key = if first_node_restart { format!("{k}/public/restart-first-node") } else { format!("{k}/{}/{}{}{}", if c.public { "public" } else { "private" }, if kinds.is_empty() { "steady".to_string() } else { kinds.join("+") }, if c.late.is_some() { "+late-joiner" } else { "" }, if c.observer_first { "+observer-starts-first" } else if c.adaptive { "+adaptive-observer" } else { "" }) };
         if seen.insert(key.clone()) {
             out.violation(
                 key,
@@ -374,7 +378,7 @@ fn record(c: &Cfg, o: &Out, out: &mut Partial) {
 }
 
 fn cfg_json(c: &Cfg) -> Value {
-    json!({"public": c.public, "late": c.late.map(|(p, m)| vec![p as u64, m]), "devs": c.devs.iter().map(|d| json!({"at_s": d.at / SEC, "act": match d.act { Act::Crash(p) => format!("crash{p}"), Act::Restart(p) => format!("restart{p}"), Act::Lookup => "lookup".to_string() }})).collect::<Vec<_>>(), "horizon_min": c.horizon / MIN, "observer_first": c.observer_first})
+    json!({"public": c.public, "late": c.late.map(|(p, m)| vec![p as u64, m]), "devs": c.devs.iter().map(|d| json!({"at_s": d.at / SEC, "act": match d.act { Act::Crash(p) => format!("crash{p}"), Act::Restart(p) => format!("restart{p}"), Act::Lookup => "lookup".to_string() }})).collect::<Vec<_>>(), "horizon_min": c.horizon / MIN, "observer_first": c.observer_first, "adaptive": c.adaptive})
 }
 
 fn placements(horizon: u64, reduced: bool) -> Vec<u64> {
@@ -402,11 +406,11 @@ fn run(tier: Tier, shard: usize, nshards: usize, _seed: u64) -> Partial {
     let mut cfgs: Vec<Cfg> = vec![];
     for public in [false, true] {
         // steady, and a late joiner at three different minutes
-        cfgs.push(Cfg { public, late: None, devs: vec![], horizon, observer_first: false });
+        cfgs.push(Cfg { public, late: None, devs: vec![], horizon, observer_first: false, adaptive: false });
         for (p, m) in [(3usize, 2u64), (3, 7), (2, 12), (1, 7)] {
-            cfgs.push(Cfg { public, late: Some((p, m)), devs: vec![], horizon, observer_first: false });
+            cfgs.push(Cfg { public, late: Some((p, m)), devs: vec![], horizon, observer_first: false, adaptive: false });
         }
-        cfgs.push(Cfg { public, late: None, devs: vec![], horizon, observer_first: true });
+        cfgs.push(Cfg { public, late: None, devs: vec![], horizon, observer_first: true, adaptive: false });
         // blackout: every peer dies at minute 5, the observer's table is purged empty, and
         // later its bootstrap peer (alone, or with a second peer) comes back at the same address
         for back_at in [26u64, 31, 38] {
@@ -416,7 +420,7 @@ fn run(tier: Tier, shard: usize, nshards: usize, _seed: u64) -> Partial {
                 if second {
                     devs.push(Dev { at: back_at * MIN + 40 * SEC, act: Act::Restart(2) });
                 }
-                cfgs.push(Cfg { public, late: None, devs, horizon: horizon.max(65 * MIN), observer_first: false });
+                cfgs.push(Cfg { public, late: None, devs, horizon: horizon.max(65 * MIN), observer_first: false, adaptive: false });
             }
         }
         // the same with a late joiner (minute 7) whose own refresh reaches the observer after
@@ -425,37 +429,46 @@ fn run(tier: Tier, shard: usize, nshards: usize, _seed: u64) -> Partial {
             for back_after in [14u64, 19] {
                 let mut devs: Vec<Dev> = (0..4).map(|p| Dev { at: crash_at * MIN + (1 + p as u64) * SEC, act: Act::Crash(p) }).collect();
                 devs.push(Dev { at: (crash_at + back_after) * MIN + 7 * SEC, act: Act::Restart(0) });
-                cfgs.push(Cfg { public, late: Some((3, 7)), devs, horizon: horizon.max(75 * MIN), observer_first: false });
+                cfgs.push(Cfg { public, late: Some((3, 7)), devs, horizon: horizon.max(75 * MIN), observer_first: false, adaptive: false });
             }
         }
         // a near peer dies, and more than 20 minutes later a second one
         for p in 0..4 {
             for q in 0..4 {
                 if p != q {
-                    cfgs.push(Cfg { public, late: None, devs: vec![Dev { at: 5 * MIN + SEC, act: Act::Crash(p) }, Dev { at: 27 * MIN + SEC, act: Act::Crash(q) }], horizon: horizon.max(55 * MIN), observer_first: false });
+                    cfgs.push(Cfg { public, late: None, devs: vec![Dev { at: 5 * MIN + SEC, act: Act::Crash(p) }, Dev { at: 27 * MIN + SEC, act: Act::Crash(q) }], horizon: horizon.max(55 * MIN), observer_first: false, adaptive: false });
                 }
             }
         }
         for at in placements(horizon, false) {
             for p in 0..4 {
-                cfgs.push(Cfg { public, late: None, devs: vec![Dev { at, act: Act::Crash(p) }], horizon, observer_first: false });
-                cfgs.push(Cfg { public, late: None, devs: vec![Dev { at, act: Act::Restart(p) }], horizon, observer_first: false });
+                cfgs.push(Cfg { public, late: None, devs: vec![Dev { at, act: Act::Crash(p) }], horizon, observer_first: false, adaptive: false });
+                cfgs.push(Cfg { public, late: None, devs: vec![Dev { at, act: Act::Restart(p) }], horizon, observer_first: false, adaptive: false });
             }
-            cfgs.push(Cfg { public, late: None, devs: vec![Dev { at, act: Act::Lookup }], horizon, observer_first: false });
+            cfgs.push(Cfg { public, late: None, devs: vec![Dev { at, act: Act::Lookup }], horizon, observer_first: false, adaptive: false });
+        }
+        // an adaptive observer (it turns into a server at its first refresh when its address was
+        // confirmed): steady, and with its bootstrap peer or another peer crashing at every placement
+        cfgs.push(Cfg { public, late: None, devs: vec![], horizon, observer_first: false, adaptive: true });
+        for at in placements(horizon, false) {
+            for p in [0usize, 2] {
+                cfgs.push(Cfg { public, late: None, devs: vec![Dev { at, act: Act::Crash(p) }], horizon, observer_first: false, adaptive: true });
+            }
+            cfgs.push(Cfg { public, late: None, devs: vec![Dev { at, act: Act::Lookup }], horizon, observer_first: false, adaptive: true });
         }
         if !tier.is_quick() {
             let pl = placements(horizon, true);
             for (i, a1) in pl.iter().enumerate() {
                 for a2 in pl.iter().skip(i) {
                     for (x, y) in [(Act::Crash(1), Act::Restart(1)), (Act::Restart(0), Act::Crash(2)), (Act::Crash(0), Act::Lookup), (Act::Restart(3), Act::Restart(3)), (Act::Crash(2), Act::Crash(3))] {
-                        cfgs.push(Cfg { public, late: None, devs: vec![Dev { at: *a1, act: x }, Dev { at: *a2 + 7 * SEC, act: y }], horizon, observer_first: false });
+                        cfgs.push(Cfg { public, late: None, devs: vec![Dev { at: *a1, act: x }, Dev { at: *a2 + 7 * SEC, act: y }], horizon, observer_first: false, adaptive: false });
                     }
                 }
             }
         }
     }
     if shard == 0 {
-        let c = Cfg { public: false, late: Some((3, 7)), devs: vec![Dev { at: 10 * MIN + SEC, act: Act::Restart(1) }], horizon: 40 * MIN, observer_first: false };
+        let c = Cfg { public: false, late: Some((3, 7)), devs: vec![Dev { at: 10 * MIN + SEC, act: Act::Restart(1) }], horizon: 40 * MIN, observer_first: false, adaptive: false };
         let (a, b) = (scenario(&c, true), scenario(&c, true));
         assert!(a.steps == b.steps && a.digests.len() == b.digests.len() && a.problems.len() == b.problems.len(), "MACHINERY: scenario is not deterministic");
     }
@@ -494,7 +507,7 @@ fn replay(v: &Value) -> Result<Option<Violation>, String> {
         })
         .collect();
     let late = v.get("late").and_then(|l| l.as_array()).and_then(|a| Some((a.first()?.as_u64()? as usize, a.get(1)?.as_u64()?)));
-    let cfg = Cfg { public: v.get("public").and_then(|p| p.as_bool()).unwrap_or(false), late, devs, horizon: v.get("horizon_min").and_then(|h| h.as_u64()).unwrap_or(65) * MIN, observer_first: v.get("observer_first").and_then(|h| h.as_bool()).unwrap_or(false) };
+    let cfg = Cfg { public: v.get("public").and_then(|p| p.as_bool()).unwrap_or(false), late, devs, horizon: v.get("horizon_min").and_then(|h| h.as_u64()).unwrap_or(65) * MIN, observer_first: v.get("observer_first").and_then(|h| h.as_bool()).unwrap_or(false), adaptive: v.get("adaptive").and_then(|h| h.as_bool()).unwrap_or(false) };
     let mut out = Partial::default();
     let mut died = Partial::default();
     super::guard_dead_actor(&mut died, "replay", v.clone(), |_| {});
